@@ -191,6 +191,6 @@ def parts(tier):
     q = tier == "quick"
     return [
         Part("pairs", judge, oc.operand_pair(False), n=700 if q else 20000, budget_s=75 if q else 2400),
-        Part("pairs-curved", judge, oc.operand_pair(True), n=48 if q else 1000, budget_s=75 if q else 3000, shards=16),
+        Part("pairs-curved", judge, oc.operand_pair(True), n=128 if q else 2000, budget_s=75 if q else 3000, shards=16),
         Part("programs", judge_program, c01.program_cases(False), n=160 if q else 5000, budget_s=60 if q else 2400),
     ]
